@@ -38,6 +38,9 @@ func c02Compare(what string, p int, err error, end int) error {
 // CheckC02: (success, offset) of SkipValue equals the reference pair for buffer nil /
 // fresh / used (primed, then the case's prior Steps).
 func CheckC02(c *core.Case) error {
+	if c.Kind == "cold" {
+		return checkCold(c)
+	}
 	in := inputOf(c)
 	end, ok, _ := skipOracle(in)
 	if !ok {
